@@ -1576,8 +1576,11 @@ func (c *Compiler) compileEmptyMatch() (start, end StateID, err error) {
 // making it impossible to reach a match state.
 func (c *Compiler) compileNoMatch() (start, end StateID, err error) {
 	// Create start and end states that are not connected
-	// The start state has no transitions, so the NFA can never progress
-	start = c.builder.AddEpsilon(InvalidState)
+	// The start state is a dead state (no transitions), so the NFA can never progress.
+	// It must not be an epsilon state pointing at InvalidState: consumers that follow
+	// epsilon transitions unconditionally (e.g. the one-pass builder) would index
+	// their state sets with InvalidState.
+	start = c.builder.AddFail()
 	end = c.builder.AddEpsilon(InvalidState)
 	// Don't connect start to end - this makes it impossible to match
 	return start, end, nil
